@@ -441,7 +441,7 @@ func runC06(c *fw.Ctx) {
 	// is pasted at the end of the representative of every reachable state whose sequence holds no
 	// MACRO / PASTE of its own; the forest after paste expansion must equal the reference
 	// resolution of the sequence with the body written in place.
-	var pasteRuns, pasteCompared, pasteMism int64
+	var pasteRuns, pasteCompared, pasteMism, pasteOther int64
 	{
 		var reps [][]int
 		seenRep := map[string]bool{}
@@ -520,9 +520,12 @@ func runC06(c *fw.Ctx) {
 						switch {
 						case ir.crash != "":
 							bad = "the library crashes during paste expansion: " + ir.crash
+						case ir.rej == "other":
+							// e.g. two ENUMs of one name in the body: rejected for a reason that is not about contexts
+							atomic.AddInt64(&pasteOther, 1)
 						case re.rejected == "ctx" && ir.rej == "":
 							bad = fmt.Sprintf("after expansion a directive has no place (reference), the library accepts with forest %s", ir.tree)
-						case re.rejected == "" && ir.rej != "":
+						case re.rejected == "" && ir.rej == "ctx":
 							bad = fmt.Sprintf("reference places every pasted directive, the library rejects: %q", ir.msg)
 						case re.rejected == "" && ir.tree != dumpRef(al, re.roots):
 							bad = fmt.Sprintf("forest after paste differs: library %s, reference %s", ir.tree, dumpRef(al, re.roots))
@@ -547,6 +550,7 @@ func runC06(c *fw.Ctx) {
 	c.Note("paste_runs", pasteRuns)
 	c.Note("paste_forests_compared", pasteCompared)
 	c.Note("paste_mismatches", pasteMism)
+	c.Note("paste_rejected_for_other_reasons_not_judged", pasteOther)
 	transitions += pasteCompared
 	for k := range index {
 		c.Distinct(k)
